@@ -233,7 +233,7 @@ fn run_c06_examples() -> Outcome {
     stats::sample(|| format!("{{\"example\":\"{}\"}}", case.args[1..].join(" ")));
     // rescue-raps, merkle and the lamport examples draw their inputs from a real random source
     // every time they are constructed: two constructions are two different instances, so they
-    // cannot be compared across builds (they are still proved and verified under C01)
+    // cannot be compared across builds (C01 leaves them out as well: a run on them cannot be replayed)
     if case.kind >= 8 {
         stats::count("steps.randomised_example_skipped", 1);
         return Ok(());
